@@ -25,8 +25,8 @@ RULE = (
 )
 ASSUMPTIONS = ["strict/lenient literal grammars of vlib/reflex.py; where the two readings disagree on the class ('\\08') either is accepted"]
 
-ALPH_INT = list("0127 89xXbBafAFguUlL".replace(" ", ""))
-ALPH_FLT = list("019.eEpP+-fFlLxag")
+ALPH_INT = list("0127 89xXbBafAFguUlL".replace(" ", "")) + ["\u0663"]  # + a decimal digit of another script
+ALPH_FLT = list("019.eEpP+-fFlLxag") + ["\u0663"]
 ALPH_CHR = list("'\"\\anx08uULq(? \n/*")
 
 LITERAL_CLASSES = {
